@@ -1,8 +1,44 @@
-(* The offline tools (validate_blob, recovery_blob) on byte-prefixes of well-formed blobs, and the
-   recovery defect F7.  Builds on Blob/ScanProofs.v (blob layout, slices of truncated files). *)
+(* The offline tools (validate_blob, recovery_blob) on byte-prefixes of well-formed blobs; the writer of the
+   recovery tool stamps the position in the output into each header (repair of finding F7): every record of a
+   recovered file, whatever the input was, is found by the storage's scan and read back through its header.
+   Builds on Blob/ScanProofs.v (blob layout, slices of truncated files). *)
 Require Import Pearl.Base.Prelude Pearl.Base.LE Pearl.Base.LEProofs Pearl.Base.Crc Pearl.Base.CrcProofs
                Pearl.Generated.Consts Pearl.Format.Record Pearl.Format.RecordProofs Pearl.Blob.Scan
                Pearl.Blob.ScanProofs.
+
+(* ------------------------------------------------------------------------------------------------ *)
+(* BlobWriter::write_record: the header written to the output carries the position in the output    *)
+(* ------------------------------------------------------------------------------------------------ *)
+
+Lemma stamp_off h o : h_off (stamp h o) = o.
+Proof. unfold stamp. destruct (N.eqb_spec (h_off h) o) as [E|E]; [exact E|reflexivity]. Qed.
+
+Lemma stamp_same h o : h_off h = o -> stamp h o = h.
+Proof. intros E. unfold stamp. rewrite (proj2 (N.eqb_eq _ _) E). reflexivity. Qed.
+
+(* a header whose checksum is right keeps a right checksum *)
+Lemma stamp_crc h o : h_hcrc h = header_crc h -> h_hcrc (stamp h o) = header_crc (stamp h o).
+Proof.
+  intros H. unfold stamp. destruct (h_off h =? o); [exact H|]. cbv zeta.
+  rewrite header_crc_with_hcrc. reflexivity.
+Qed.
+
+Lemma stamp_other_fields h o :
+  h_magic (stamp h o) = h_magic h /\ h_key (stamp h o) = h_key h /\ h_msize (stamp h o) = h_msize h /\
+  h_dsize (stamp h o) = h_dsize h /\ h_flags (stamp h o) = h_flags h /\ h_ts (stamp h o) = h_ts h /\
+  h_dcrc (stamp h o) = h_dcrc h.
+Proof. unfold stamp. destruct (h_off h =? o); repeat split; reflexivity. Qed.
+
+Lemma stamp_valid h o : validate_header h = None -> validate_header (stamp h o) = None.
+Proof.
+  unfold validate_header. destruct (stamp_other_fields h o) as (Hm & _). rewrite Hm.
+  destruct (h_magic h =? RECORD_MAGIC_BYTE); cbn [negb]; [|discriminate].
+  destruct (N.eqb_spec (header_crc h) (h_hcrc h)) as [E|E]; cbn [negb]; [intros _|discriminate].
+  rewrite (stamp_crc h o (eq_sym E)), N.eqb_refl. reflexivity.
+Qed.
+
+Lemma stamp_length h o : length (encode_header (stamp h o)) = length (encode_header h).
+Proof. rewrite !encode_header_length. destruct (stamp_other_fields h o) as (_ & Hk & _). rewrite Hk. reflexivity. Qed.
 
 Section ToolsProofs.
 Variable meta_ok : bytes -> bool.
@@ -127,10 +163,11 @@ Qed.
 Lemma tool_recover_loop_spec K (HK : K < 2^64) skip : forall rs pre out fuel n,
   Forall (wf_rec K) rs -> metas_ok rs -> N.of_nat (length pre + recs_len rs) < 2^64 ->
   (length pre <= n)%nat -> (n <= length pre + recs_len rs)%nat -> (0 < fuel)%nat -> (n < fuel + length pre)%nat ->
+  length out = length pre ->   (* every record is copied to the position it had, so its header is written unchanged *)
   tool_recover_loop meta_ok fuel (firstn n (pre ++ recs_bytes (length pre) rs)) skip (N.of_nat (length pre)) out
   = out ++ recs_bytes (length pre) (firstn (ncomplete (length pre) rs n) rs).
 Proof.
-  induction rs as [|x rs IH]; intros pre out fuel n Hwf Hmo Hsz Hlo Hhi Hf Hfuel.
+  induction rs as [|x rs IH]; intros pre out fuel n Hwf Hmo Hsz Hlo Hhi Hf Hfuel Hout.
   - cbn [recs_len] in Hhi. destruct fuel as [|f]; [lia|]. cbn [tool_recover_loop recs_bytes ncomplete firstn].
     rewrite !app_nil_r, firstn_length.
     destruct (N.ltb_spec (N.of_nat (length pre)) (N.of_nat (Nat.min n (length pre)))) as [C|_]; [lia|reflexivity].
@@ -149,8 +186,12 @@ Proof.
     rewrite (tool_read_spec K) by (assumption || lia).
     destruct (Nat.leb_spec (length pre + rec_len x) n) as [Hc|Hc].
     + rewrite <- Hlp. rewrite (app_assoc pre). fold pre'.
-      rewrite (IH pre' _ f n Hrs Hmrs) by lia. rewrite Hlp. cbn [firstn recs_bytes].
-      unfold rec_out. fold (rec_bytes (N.of_nat (length pre)) x). rewrite <- app_assoc. reflexivity.
+      assert (Ero : rec_out out (hdr_of (N.of_nat (length pre)) x) (rmeta x) (rdata x)
+                    = rec_bytes (N.of_nat (length pre)) x).
+      { unfold rec_out. rewrite Hout, stamp_same by apply hdr_off. reflexivity. }
+      rewrite Ero.
+      rewrite (IH pre' _ f n Hrs Hmrs) by (try lia; rewrite app_length, rec_bytes_length; lia).
+      rewrite Hlp. cbn [firstn recs_bytes]. rewrite <- app_assoc. reflexivity.
     + cbn [firstn recs_bytes skip_pos]. rewrite app_nil_r. destruct skip; reflexivity.
 Qed.
 
@@ -211,7 +252,7 @@ Proof.
     rewrite E20, !blob_bytes_eq.
     pose proof (tool_recover_loop_spec K HK skip rs blob_header_bytes blob_header_bytes (S n) n Hwf Hmo) as Hs.
     rewrite blob_header_length in Hs. change (N.of_nat 20) with 20 in Hs.
-    rewrite Hs by lia. reflexivity.
+    rewrite Hs by (reflexivity || lia). reflexivity.
   - pose proof (ncomplete_spec rs 20 n H20) as Hc. cbv zeta in Hc. fold j in Hc.
     rewrite !boundary_eq. exact Hc.
 Qed.
@@ -219,8 +260,423 @@ Qed.
 End ToolsProofs.
 
 (* ------------------------------------------------------------------------------------------------ *)
-(* F7: recovery with skip_wrong re-emits the records after a skipped one with their OLD blob_offset  *)
+(* recovery of ANY input file: every record written carries its position in the output (was F7)     *)
 (* ------------------------------------------------------------------------------------------------ *)
+
+Section RecoverGeneral.
+Variable meta_ok : bytes -> bool.
+
+(* a record the tool writes: the header as it was read, the metadata and the data *)
+Definition item := (header * bytes * bytes)%type.
+
+(* the output file after writing the items one after another behind [out] *)
+Fixpoint out_of (items : list item) (out : bytes) : bytes :=
+  match items with
+  | [] => out
+  | (h, m, d) :: r => out_of r (out ++ rec_out out h m d)
+  end.
+
+(* what a successful read guarantees about the record *)
+Definition good_item (it : item) : Prop :=
+  let '(h, m, d) := it in
+  validate_header h = None /\ h_msize h = N.of_nat (length m) /\ h_dsize h = N.of_nat (length d) /\
+  h_dcrc h = crc32c d.
+
+Lemma slice_length b off len x : slice b off len = Some x -> N.of_nat (length x) = len.
+Proof.
+  unfold slice. destruct (N.eqb_spec len 0) as [Hz|Hz].
+  - intros [= <-]. cbn [length]. lia.
+  - destruct (N.leb_spec (off + len) (N.of_nat (length b))) as [Hle|Hgt]; [|discriminate].
+    intros [= <-]. rewrite firstn_length, skipn_length. lia.
+Qed.
+
+Lemma tool_read_good b pos h m d p' :
+  tool_read meta_ok b pos = inl (h, m, d, p') -> good_item (h, m, d) /\ meta_ok m = true.
+Proof.
+  unfold tool_read.
+  destruct (slice b pos 16) as [pre|]; [|discriminate].
+  destruct (slice b pos (57 + le_val (firstn 8 (skipn 8 pre)))) as [hb|]; [|discriminate].
+  destruct (decode_header hb) as [h0|]; [|discriminate].
+  destruct (validate_header h0) as [e|] eqn:Hv; [discriminate|].
+  destruct (slice b (pos + 57 + le_val (firstn 8 (skipn 8 pre))) (h_msize h0)) as [m0|] eqn:Sm; [|discriminate].
+  destruct (slice b (pos + 57 + le_val (firstn 8 (skipn 8 pre)) + h_msize h0) (h_dsize h0)) as [d0|] eqn:Sd;
+    [|destruct (meta_ok m0); discriminate].
+  destruct (meta_ok m0) eqn:Hmo; cbn [negb]; [|discriminate].
+  destruct (N.eqb_spec (crc32c d0) (h_dcrc h0)) as [Hc|Hc]; [|discriminate].
+  intros [= -> -> -> _]. split; [|exact Hmo]. cbn [good_item].
+  split; [exact Hv|]. split; [symmetry; exact (slice_length _ _ _ _ Sm)|].
+  split; [symmetry; exact (slice_length _ _ _ _ Sd)|]. symmetry; exact Hc.
+Qed.
+
+Definition was_read (b : bytes) (it : item) : Prop :=
+  exists pos p', tool_read meta_ok b pos = inl (it, p').
+
+(* the loop only ever appends records it has read successfully, each through [rec_out] *)
+Lemma tool_recover_loop_items : forall fuel b skip pos out,
+  exists items, tool_recover_loop meta_ok fuel b skip pos out = out_of items out /\ Forall (was_read b) items.
+Proof.
+  induction fuel as [|f IH]; intros b skip pos out; cbn [tool_recover_loop].
+  - exists []. split; [reflexivity|constructor].
+  - destruct (pos <? N.of_nat (length b)); [|exists []; split; [reflexivity|constructor]].
+    destruct (tool_read meta_ok b pos) as [[[[h m] d] p']|e] eqn:R.
+    + destruct (IH b skip p' (out ++ rec_out out h m d)) as (its & E & F).
+      exists ((h, m, d) :: its). split; [exact E|]. constructor; [|exact F]. exists pos, p'. exact R.
+    + destruct skip; [|exists []; split; [reflexivity|constructor]].
+      destruct (skip_pos b pos e) as [p1|]; [|exists []; split; [reflexivity|constructor]].
+      destruct (tool_read meta_ok b p1) as [[[[h m] d] p']|e1] eqn:R1; [|exists []; split; [reflexivity|constructor]].
+      destruct (IH b true p' (out ++ rec_out out h m d)) as (its & E & F).
+      exists ((h, m, d) :: its). split; [exact E|]. constructor; [|exact F]. exists p1, p'. exact R1.
+Qed.
+
+Lemma out_of_app its1 : forall its2 out, out_of (its1 ++ its2) out = out_of its2 (out_of its1 out).
+Proof.
+  induction its1 as [|[[h m] d] r IH]; intros its2 out; cbn [app out_of]; [reflexivity|apply IH].
+Qed.
+
+Lemma out_of_prefix its : forall out, exists suf, out_of its out = out ++ suf.
+Proof.
+  induction its as [|[[h m] d] r IH]; intros out; cbn [out_of].
+  - exists []. rewrite app_nil_r. reflexivity.
+  - destruct (IH (out ++ rec_out out h m d)) as (suf & E). exists (rec_out out h m d ++ suf).
+    rewrite E, <- app_assoc. reflexivity.
+Qed.
+
+(* every record written starts at the length of the output so far, its header carries that position and
+   a right checksum, and Entry::load through that header returns the metadata and data that were read *)
+Theorem out_of_record_readable its1 h m d its2 out : good_item (h, m, d) ->
+  let o1 := out_of its1 out in
+  let h' := stamp h (N.of_nat (length o1)) in
+  (exists suf, out_of (its1 ++ (h, m, d) :: its2) out = o1 ++ encode_header h' ++ m ++ d ++ suf) /\
+  h_off h' = N.of_nat (length o1) /\ validate_header h' = None /\
+  entry_load (out_of (its1 ++ (h, m, d) :: its2) out) h' = ROk (m, d).
+Proof.
+  intros (Hv & Hms & Hds & Hdc) o1 h'.
+  assert (E : exists suf, out_of (its1 ++ (h, m, d) :: its2) out = o1 ++ encode_header h' ++ m ++ d ++ suf).
+  { rewrite out_of_app. fold o1. cbn [out_of].
+    destruct (out_of_prefix its2 (o1 ++ rec_out o1 h m d)) as (suf & E). exists suf.
+    rewrite E. unfold rec_out. fold h'. rewrite <- !app_assoc. reflexivity. }
+  split; [exact E|]. split; [apply stamp_off|].
+  pose proof (stamp_valid h (N.of_nat (length o1)) Hv) as Hv'. fold h' in Hv'.
+  split; [exact Hv'|].
+  destruct E as (suf & ->).
+  destruct (stamp_other_fields h (N.of_nat (length o1))) as (Fmg & Fk & Fms & Fds & _ & _ & Fdc). fold h' in Fmg, Fk, Fms, Fds, Fdc.
+  unfold validate_header in Hv'.
+  destruct (N.eqb_spec (h_magic h') RECORD_MAGIC_BYTE) as [Hmg|]; cbn [negb] in Hv'; [|discriminate].
+  destruct (N.eqb_spec (header_crc h') (h_hcrc h')) as [Hhc|]; cbn [negb] in Hv'; [|discriminate].
+  apply entry_load_ok.
+  - apply stamp_off.
+  - rewrite Fms. exact Hms.
+  - rewrite Fds. exact Hds.
+  - exact Hmg.
+  - exact Hhc.
+  - rewrite Fdc. exact Hdc.
+Qed.
+
+Theorem tool_recover_loop_offsets : forall fuel b skip pos out,
+  exists items, tool_recover_loop meta_ok fuel b skip pos out = out_of items out /\
+    Forall (was_read b) items /\
+    forall its1 h m d its2, items = its1 ++ (h, m, d) :: its2 ->
+      let o1 := out_of its1 out in
+      let h' := stamp h (N.of_nat (length o1)) in
+      (exists suf, out_of items out = o1 ++ encode_header h' ++ m ++ d ++ suf) /\
+      h_off h' = N.of_nat (length o1) /\ validate_header h' = None /\
+      entry_load (out_of items out) h' = ROk (m, d).
+Proof.
+  intros fuel b skip pos out. destruct (tool_recover_loop_items fuel b skip pos out) as (items & E & F).
+  exists items. split; [exact E|]. split; [exact F|].
+  intros its1 h m d its2 ->. apply out_of_record_readable.
+  rewrite Forall_forall in F. destruct (F (h, m, d)) as (p & p' & R).
+  { apply in_or_app. right. left. reflexivity. }
+  exact (proj1 (tool_read_good b p h m d p' R)).
+Qed.
+
+(* ---------- the recovered file under the storage's scan ---------- *)
+
+Lemma stamp_wf h o : wf_header h -> o < 2^64 -> wf_header (stamp h o).
+Proof.
+  intros (Hm & Hk & Hms & Hds & Hf & Ho & Ht & Hdc & Hhc) Hlt. unfold stamp.
+  destruct (h_off h =? o); [repeat split; assumption|].
+  unfold wf_header. cbn [h_magic h_key h_msize h_dsize h_flags h_off h_ts h_dcrc h_hcrc with_off with_hcrc].
+  repeat split; try assumption. unfold header_crc. apply crc32c_lt.
+Qed.
+
+Definition item_len (it : item) : nat :=
+  let '(h, m, d) := it in (57 + length (h_key h) + length m + length d)%nat.
+
+(* explicit layout of the records written behind the first [pos] bytes, and the headers they carry *)
+Fixpoint items_bytes (pos : nat) (its : list item) : bytes :=
+  match its with
+  | [] => []
+  | (h, m, d) :: r => (encode_header (stamp h (N.of_nat pos)) ++ m ++ d) ++ items_bytes (pos + item_len (h, m, d)) r
+  end.
+Fixpoint out_hdrs (pos : nat) (its : list item) : list header :=
+  match its with
+  | [] => []
+  | (h, m, d) :: r => stamp h (N.of_nat pos) :: out_hdrs (pos + item_len (h, m, d)) r
+  end.
+
+Lemma rec_out_length out h m d : length (rec_out out h m d) = item_len (h, m, d).
+Proof. unfold rec_out, item_len. rewrite !app_length, stamp_length, encode_header_length. lia. Qed.
+
+Lemma out_of_eq its : forall out, out_of its out = out ++ items_bytes (length out) its.
+Proof.
+  induction its as [|[[h m] d] r IH]; intros out; cbn [out_of items_bytes].
+  - rewrite app_nil_r. reflexivity.
+  - rewrite IH, app_length, rec_out_length, <- app_assoc. reflexivity.
+Qed.
+
+Lemma out_hdrs_length its : forall pos, length (out_hdrs pos its) = length its.
+Proof. induction its as [|[[h m] d] r IH]; intros pos; cbn [out_hdrs length]; [reflexivity|]. rewrite IH. reflexivity. Qed.
+
+(* a record the scan accepts: what a read guarantees, fields within their widths, key length K *)
+Definition scan_item (K : N) (it : item) : Prop :=
+  good_item it /\ wf_header (fst (fst it)) /\ N.of_nat (length (h_key (fst (fst it)))) = K.
+
+Lemma scan_loop_items K v : forall its pre acc fuel,
+  Forall (scan_item K) its -> N.of_nat (length pre + length (items_bytes (length pre) its)) < 2^64 ->
+  (length its < fuel)%nat ->
+  scan_loop fuel (pre ++ items_bytes (length pre) its) K v (N.of_nat (length pre)) acc
+  = ROk (acc ++ out_hdrs (length pre) its).
+Proof.
+  induction its as [|[[h m] d] its IH]; intros pre acc fuel Hits Hsz Hfuel.
+  - cbn [items_bytes out_hdrs]. rewrite !app_nil_r. apply scan_loop_stop; [exact Hfuel|]. lia.
+  - inversion Hits as [|it its' Hit Hrest]; subst it its'.
+    destruct Hit as ((Hv & Hms & Hds & Hdc) & Hwf & Hk). cbn [fst] in Hwf, Hk.
+    destruct fuel as [|f]; [lia|]. cbn [length] in Hfuel.
+    cbn [items_bytes out_hdrs] in *.
+    set (h' := stamp h (N.of_nat (length pre))) in *.
+    set (rest := items_bytes (length pre + item_len (h, m, d)) its) in *.
+    assert (Hle : length (encode_header h') = (57 + length (h_key h))%nat).
+    { subst h'. rewrite stamp_length. apply encode_header_length. }
+    rewrite !app_length, Hle in Hsz.
+    destruct (stamp_other_fields h (N.of_nat (length pre))) as (_ & _ & Fms & Fds & _ & _ & Fdc).
+    fold h' in Fms, Fds, Fdc.
+    set (B := pre ++ (encode_header h' ++ m ++ d) ++ rest).
+    assert (HB1 : B = pre ++ encode_header h' ++ (m ++ d ++ rest)).
+    { subst B. rewrite <- !app_assoc. reflexivity. }
+    assert (HB2 : B = (pre ++ encode_header h' ++ m) ++ d ++ rest).
+    { subst B. rewrite <- !app_assoc. reflexivity. }
+    assert (HB3 : B = (pre ++ encode_header h' ++ m ++ d) ++ rest).
+    { subst B. rewrite <- !app_assoc. reflexivity. }
+    assert (HlB : length B = (length pre + (57 + length (h_key h) + (length m + length d)) + length rest)%nat).
+    { subst B. rewrite !app_length, Hle. lia. }
+    cbn [scan_loop]. rewrite HlB.
+    destruct (N.ltb_spec (N.of_nat (length pre))
+                (N.of_nat (length pre + (57 + length (h_key h) + (length m + length d)) + length rest))) as [_|C]; [|lia].
+    assert (S1 : slice B (N.of_nat (length pre)) (57 + K) = Some (encode_header h')).
+    { rewrite HB1. apply slice_at; [reflexivity|]. rewrite Hle. lia. }
+    rewrite S1, decode_encode_header by (apply stamp_wf; [exact Hwf|lia]).
+    subst h'. rewrite (stamp_valid _ _ Hv). set (h' := stamp h (N.of_nat (length pre))) in *.
+    rewrite Fms, Fds, Fdc.
+    set (pre' := pre ++ encode_header h' ++ m ++ d).
+    assert (Hlp : length pre' = (length pre + item_len (h, m, d))%nat).
+    { subst pre'. rewrite !app_length, Hle. cbn [item_len]. lia. }
+    assert (Hcur : N.of_nat (length pre) + (57 + K) + h_msize h + h_dsize h = N.of_nat (length pre')).
+    { rewrite Hlp, Hms, Hds, <- Hk. cbn [item_len]. lia. }
+    assert (Hrec : scan_loop f B K v (N.of_nat (length pre')) (acc ++ [h']) = ROk (acc ++ h' :: out_hdrs (length pre') its)).
+    { rewrite HB3. fold pre'. unfold rest. rewrite <- Hlp.
+      rewrite (IH pre' (acc ++ [h']) f Hrest) by (try lia; rewrite Hlp; fold rest; cbn [item_len]; lia).
+      rewrite <- app_assoc. reflexivity. }
+    rewrite Hlp in Hrec at 2.
+    rewrite Hcur.
+    (* the record ends inside the file *)
+    destruct (N.ltb_spec (N.of_nat (length pre + (57 + length (h_key h) + (length m + length d)) + length rest))
+                (N.of_nat (length pre'))) as [C|_]; [rewrite Hlp in C; cbn [item_len] in C; lia|].
+    destruct v.
+    + assert (S2 : slice B (N.of_nat (length pre) + (57 + K) + h_msize h) (h_dsize h) = Some d).
+      { rewrite HB2. apply slice_at; [|exact Hds]. rewrite !app_length, Hle. lia. }
+      rewrite S2, Hdc, N.eqb_refl. exact Hrec.
+    + exact Hrec.
+Qed.
+
+Lemma items_bytes_length_ge its : forall pos, (length its <= length (items_bytes pos its))%nat.
+Proof.
+  induction its as [|[[h m] d] r IH]; intros pos; cbn [items_bytes length]; [lia|].
+  specialize (IH (pos + item_len (h, m, d))%nat). rewrite !app_length, stamp_length, encode_header_length. lia.
+Qed.
+
+Lemma blob_header_check_20 hdr rest : length hdr = 20%nat ->
+  blob_header_check (hdr ++ rest) = blob_header_check hdr.
+Proof.
+  intros H. do 20 (destruct hdr as [|? hdr]; [discriminate H|]). destruct hdr; [|discriminate H].
+  reflexivity.
+Qed.
+
+Lemma encode_header_front h : exists rest,
+  encode_header h = le64 (h_magic h) ++ le64 (N.of_nat (length (h_key h))) ++ rest.
+Proof. eexists. unfold encode_header. reflexivity. Qed.
+
+(* opening the written file: the scan (with or without data validation) returns exactly the stamped headers *)
+Theorem out_of_scan K v its hdr :
+  length hdr = 20%nat -> blob_header_check hdr = None -> Forall (scan_item K) its ->
+  N.of_nat (length (out_of its hdr)) < 2^64 ->
+  blob_open_scan (out_of its hdr) K v = ROk (out_hdrs 20 its).
+Proof.
+  intros Hl Hc Hits Hsz. rewrite out_of_eq in *. rewrite Hl in *. unfold blob_open_scan.
+  rewrite blob_header_check_20, Hc by exact Hl.
+  destruct its as [|it its].
+  - cbn [items_bytes out_hdrs]. rewrite app_nil_r, Hl. reflexivity.
+  - set (its1 := it :: its) in *. set (B := hdr ++ items_bytes 20 its1) in *. destruct it as [[h m] d].
+    assert (HB : B = hdr ++ (encode_header (stamp h (N.of_nat 20)) ++ m ++ d) ++ items_bytes (20 + item_len (h, m, d)) its)
+      by reflexivity.
+    assert (Hlen : (20 + 57 <= length B)%nat).
+    { rewrite HB, !app_length, stamp_length, encode_header_length, Hl. lia. }
+    destruct (Nat.ltb_spec 20 (length B)) as [_|C]; [|lia].
+    assert (Hst : scan_start B K = None).
+    { unfold scan_start.
+      destruct (Nat.ltb_spec (length B) 36) as [C|_]; [lia|].
+      inversion Hits as [|it its' Hit _]; subst it its'.
+      destruct Hit as ((Hv & _) & Hwf & Hk). cbn [fst] in Hwf, Hk.
+      pose proof (stamp_valid h (N.of_nat 20) Hv) as Hv'.
+      pose proof (stamp_wf h (N.of_nat 20) Hwf ltac:(reflexivity)) as (Hm' & Hk' & _).
+      destruct (stamp_other_fields h (N.of_nat 20)) as (_ & Fk & _).
+      rewrite HB.
+      destruct (encode_header_front (stamp h (N.of_nat 20))) as (rest & E). rewrite E, <- !app_assoc.
+      unfold u64_at.
+      rewrite (field_at hdr (le64 (h_magic (stamp h (N.of_nat 20)))) _ 20 8 Hl (le64_length _)).
+      rewrite le64_val by exact Hm'.
+      unfold validate_header in Hv'.
+      destruct (h_magic (stamp h (N.of_nat 20)) =? RECORD_MAGIC_BYTE); cbn [negb] in *; [|discriminate Hv'].
+      rewrite (app_assoc hdr (le64 _)).
+      rewrite (field_at (hdr ++ le64 (h_magic (stamp h (N.of_nat 20)))) (le64 (N.of_nat (length (h_key (stamp h (N.of_nat 20)))))) _ 28 8)
+        by (rewrite ?app_length, ?le64_length, ?Hl; reflexivity).
+      rewrite le64_val by exact Hk'. rewrite Fk, Hk, N.eqb_refl. reflexivity. }
+    rewrite Hst.
+    pose proof (scan_loop_items K v its1 hdr [] (S (length B)) Hits) as Hs.
+    rewrite Hl in Hs. change (N.of_nat 20) with 20 in Hs. fold B in Hs. rewrite Hs; [reflexivity| |].
+    + unfold B in Hsz. rewrite app_length, Hl in Hsz. exact Hsz.
+    + pose proof (items_bytes_length_ge its1 20) as Hge. unfold B. rewrite app_length. lia.
+Qed.
+
+(* ---------- headers read from a file of bytes (< 256) fit their fields ---------- *)
+Lemma wf_bytes_firstn b : wf_bytes b -> forall n, wf_bytes (firstn n b).
+Proof.
+  unfold wf_bytes. induction 1 as [|x l Hx Hl IH]; intros [|n]; cbn [firstn]; constructor; [exact Hx|apply IH].
+Qed.
+Lemma wf_bytes_skipn b : wf_bytes b -> forall n, wf_bytes (skipn n b).
+Proof.
+  unfold wf_bytes. induction 1 as [|x l Hx Hl IH]; intros [|n]; cbn [skipn]; try constructor; try assumption. apply IH.
+Qed.
+Lemma le_val_firstn_lt k b : wf_bytes b -> le_val (firstn k b) < 2^(8 * N.of_nat k).
+Proof.
+  intros H. eapply N.lt_le_trans; [apply le_val_lt, wf_bytes_firstn, H|].
+  apply N.pow_le_mono_r; [lia|]. rewrite firstn_length. lia.
+Qed.
+Lemma wf_bytes_nth b i : wf_bytes b -> nth i b 0 < 256.
+Proof.
+  intros H. destruct (Nat.lt_ge_cases i (length b)) as [Hi|Hi].
+  - exact (proj1 (Forall_nth _ b) H i 0 Hi).
+  - rewrite nth_overflow by exact Hi. reflexivity.
+Qed.
+Lemma slice_wf b off len x : wf_bytes b -> slice b off len = Some x -> wf_bytes x.
+Proof.
+  intros H. unfold slice. destruct (len =? 0); [intros [= <-]; constructor|].
+  destruct (off + len <=? N.of_nat (length b)); [|discriminate].
+  intros [= <-]. apply wf_bytes_firstn, wf_bytes_skipn, H.
+Qed.
+
+Lemma decode_header_wf hb h : wf_bytes hb -> decode_header hb = Some h -> wf_header h.
+Proof.
+  intros Hb.
+  assert (U64 : forall o, le_val (firstn 8 (skipn o hb)) < 2^64).
+  { intros o. apply (le_val_firstn_lt 8), wf_bytes_skipn, Hb. }
+  assert (U32 : forall o, le_val (firstn 4 (skipn o hb)) < 2^32).
+  { intros o. apply (le_val_firstn_lt 4), wf_bytes_skipn, Hb. }
+  set (u64 := fun o : nat => le_val (firstn 8 (skipn o hb))).
+  set (u32 := fun o : nat => le_val (firstn 4 (skipn o hb))).
+  set (klen := N.to_nat (u64 8%nat)).
+  assert (W : wf_header {| h_magic := u64 0%nat; h_key := firstn klen (skipn 16 hb); h_msize := u64 (16 + klen)%nat;
+          h_dsize := u64 (24 + klen)%nat; h_flags := nth (32 + klen) hb 0; h_off := u64 (33 + klen)%nat;
+          h_ts := u64 (41 + klen)%nat; h_dcrc := u32 (49 + klen)%nat; h_hcrc := u32 (53 + klen)%nat |}).
+  { unfold wf_header. cbn [h_magic h_key h_msize h_dsize h_flags h_off h_ts h_dcrc h_hcrc].
+    split; [apply U64|]. split.
+    { rewrite firstn_length. specialize (U64 8%nat). subst klen u64. cbv beta. lia. }
+    split; [apply U64|]. split; [apply U64|]. split; [apply wf_bytes_nth, Hb|].
+    split; [apply U64|]. split; [apply U64|]. split; apply U32. }
+  unfold decode_header. cbv beta zeta.
+  destruct (length hb <? 16)%nat; [discriminate|].
+  destruct (negb (length hb =? 57 + N.to_nat (le_val (firstn 8 (skipn 8 hb))))%nat); [discriminate|].
+  intros E. injection E as E. rewrite <- E. exact W.
+Qed.
+
+Lemma tool_read_wf b pos h m d p' :
+  wf_bytes b -> tool_read meta_ok b pos = inl (h, m, d, p') -> wf_header h.
+Proof.
+  intros Hb. unfold tool_read.
+  destruct (slice b pos 16) as [pre|]; [|discriminate].
+  destruct (slice b pos (57 + le_val (firstn 8 (skipn 8 pre)))) as [hb|] eqn:Sh; [|discriminate].
+  destruct (decode_header hb) as [h0|] eqn:Dh; [|discriminate].
+  destruct (validate_header h0) as [e|]; [discriminate|].
+  destruct (slice b (pos + 57 + le_val (firstn 8 (skipn 8 pre))) (h_msize h0)) as [m0|]; [|discriminate].
+  destruct (slice b (pos + 57 + le_val (firstn 8 (skipn 8 pre)) + h_msize h0) (h_dsize h0)) as [d0|];
+    [|destruct (meta_ok m0); discriminate].
+  destruct (meta_ok m0); cbn [negb]; [|discriminate].
+  destruct (crc32c d0 =? h_dcrc h0); [|discriminate].
+  intros [= <- _ _ _]. exact (decode_header_wf hb h0 (slice_wf _ _ _ _ Hb Sh) Dh).
+Qed.
+
+(* every record of the written file is read back through its stamped header *)
+Lemma out_of_all_readable its2 : forall its1 out, Forall good_item its2 ->
+  Forall2 (fun it h' => entry_load (out_of (its1 ++ its2) out) h' = ROk (snd (fst it), snd it))
+          its2 (out_hdrs (length (out_of its1 out)) its2).
+Proof.
+  induction its2 as [|[[h m] d] r IH]; intros its1 out Hg; cbn [out_hdrs]; [constructor|].
+  inversion Hg as [|it r' Hit Hr]; subst it r'. constructor.
+  - cbn [fst snd]. apply (out_of_record_readable its1 h m d r out Hit).
+  - specialize (IH (its1 ++ [(h, m, d)]) out Hr).
+    rewrite (out_of_app its1 [(h, m, d)] out) in IH. cbn [out_of] in IH.
+    rewrite app_length, rec_out_length, <- app_assoc in IH. exact IH.
+Qed.
+
+(* MAIN: whatever the input file holds (damaged or not, with or without skipping), the file recovery writes is
+   opened by the storage's scan, which returns one header per written record, each carrying its position in
+   the NEW file, and Entry::load through each of them returns the metadata and data the tool had read.
+   Premises: the input is a file of bytes with the blob header the storage expects, every record the tool can
+   read has the key length K of the storage, and the output is shorter than 2^64 bytes. *)
+Theorem tool_recover_served : forall K b skip out v,
+  wf_bytes b -> blob_header_check b = None ->
+  (forall pos h m d p', tool_read meta_ok b pos = inl (h, m, d, p') -> N.of_nat (length (h_key h)) = K) ->
+  tool_recover meta_ok b skip = Some out -> N.of_nat (length out) < 2^64 ->
+  exists items,
+    Forall (was_read b) items /\ out = out_of items (firstn 20 b) /\
+    blob_open_scan out K v = ROk (out_hdrs 20 items) /\
+    Forall2 (fun it h' => entry_load out h' = ROk (snd (fst it), snd it)) items (out_hdrs 20 items).
+Proof.
+  intros K b skip out v Hb Hc HK Hrec Hsz.
+  assert (H20 : (20 <= length b)%nat).
+  { unfold blob_header_check in Hc. destruct (Nat.ltb_spec (length b) 20) as [C|C]; [discriminate Hc|exact C]. }
+  assert (Hl : length (firstn 20 b) = 20%nat) by (rewrite firstn_length; lia).
+  assert (Hc' : blob_header_check (firstn 20 b) = None).
+  { rewrite <- (blob_header_check_20 (firstn 20 b) (skipn 20 b) Hl), firstn_skipn. exact Hc. }
+  unfold tool_recover in Hrec.
+  destruct (length b <? 20)%nat; [discriminate Hrec|].
+  destruct (negb (u64_at b 0 =? BLOB_MAGIC_BYTE)); [discriminate Hrec|].
+  destruct (tool_recover_loop_items (S (length b)) b skip 20 (firstn 20 b)) as (items & E & F).
+  rewrite E in Hrec. assert (Hout : out = out_of items (firstn 20 b)) by congruence.
+  clear Hrec. subst out. exists items.
+  assert (Hgood : Forall good_item items).
+  { rewrite Forall_forall in *. intros [[h m] d] Hin. destruct (F _ Hin) as (p & p' & R).
+    exact (proj1 (tool_read_good b p h m d p' R)). }
+  assert (Hscan : Forall (scan_item K) items).
+  { rewrite Forall_forall in *. intros [[h m] d] Hin. destruct (F _ Hin) as (p & p' & R).
+    split; [exact (Hgood _ Hin)|]. cbn [fst]. split; [exact (tool_read_wf b p h m d p' Hb R)|exact (HK p h m d p' R)]. }
+  split; [exact F|]. split; [reflexivity|]. split.
+  - apply out_of_scan; assumption.
+  - pose proof (out_of_all_readable items [] (firstn 20 b) Hgood) as H2.
+    cbn [app out_of] in H2. rewrite Hl in H2. exact H2.
+Qed.
+End RecoverGeneral.
+
+(* ------------------------------------------------------------------------------------------------ *)
+(* F7 (repaired in commit 34bfd5d of the code): with skip_wrong the records behind a skipped one    *)
+(* are written with their NEW blob_offset. Before the repair the header was copied unchanged, the   *)
+(* record kept the offset of its old place and was unreadable through the regenerated index.        *)
+(* ------------------------------------------------------------------------------------------------ *)
+
+(* re-stamping a header the writer produced gives the header the writer would have produced at the new place,
+   so skipping a record yields byte for byte the blob of the remaining records *)
+Lemma stamp_hdr_of o o' x : stamp (hdr_of o x) o' = hdr_of o' x.
+Proof. unfold stamp. rewrite hdr_off. destruct (N.eqb_spec o o') as [->|_]; reflexivity. Qed.
 
 Definition all_ok (_ : bytes) : bool := true.
 Definition f7_r1 : rec := ([1;2;3;4], 1, [], [10;20;30]).
@@ -230,31 +686,44 @@ Definition f7_recs : list rec := [f7_r1; f7_r2; f7_r3].
 (* the last data byte of record 2 has one bit flipped *)
 Definition f7_bad : bytes := updN (blob_bytes f7_recs) (boundary f7_recs 2 - 1) (fun b => N.lxor b 1).
 Definition f7_h1 : header := nth 0 (blob_hdrs f7_recs) (new_header [] 0 [] []).
-Definition f7_h3 : header := nth 2 (blob_hdrs f7_recs) (new_header [] 0 [] []).
-(* what the tool writes: header, record 1, and record 3 byte-for-byte as it was at its old position *)
-Definition f7_out : bytes :=
-  blob_header_bytes ++ rec_bytes 20 f7_r1 ++ rec_bytes (N.of_nat (boundary f7_recs 2)) f7_r3.
+Definition f7_h3 : header := nth 2 (blob_hdrs f7_recs) (new_header [] 0 [] []).   (* record 3 in the damaged blob *)
+(* what the tool writes: exactly the blob the storage would have written for records 1 and 3 alone *)
+Definition f7_out : bytes := blob_bytes [f7_r1; f7_r3].
+Definition f7_h3' : header := nth 1 (blob_hdrs [f7_r1; f7_r3]) (new_header [] 0 [] []).
 
 (* without skip_wrong the tool stops at the bad record: only record 1 survives *)
 Example f7_no_skip : tool_recover all_ok f7_bad false = Some (blob_bytes [f7_r1]).
 Proof. vm_compute. reflexivity. Qed.
 
-(* with skip_wrong: record 3 now sits at offset 84 (= boundary 1) but its header still says 148
-   (= boundary 2); the output passes the validator and a validating scan, which hands that header to the
-   index -- and reading record 3 through it fails (here: beyond end of file) *)
-Example f7_recover_keeps_old_offset :
+(* with skip_wrong: record 3 now sits at offset 84 (= boundary 1) and its header says 84 (it said 148 = boundary 2
+   in the damaged blob), with a refreshed header checksum; the output passes the validator and the scan with and
+   without data validation, and every header the scan hands to the index reads back the original bytes *)
+Example f7_recover_stamps_new_offset :
   tool_recover all_ok f7_bad true = Some f7_out /\
   length f7_out = 148%nat /\
-  slice f7_out 84 61 = Some (encode_header f7_h3) /\          (* the header of record 3 is at 84 *)
-  h_off f7_h3 = 148 /\                                         (* but claims 148 *)
+  slice f7_out 84 61 = Some (encode_header f7_h3') /\         (* the header of record 3 is at 84 *)
+  h_off f7_h3 = 148 /\ f7_h3' = stamp f7_h3 84 /\ h_off f7_h3' = 84 /\   (* and says 84 *)
+  validate_header f7_h3' = None /\
   tool_validate_blob all_ok f7_out = true /\
-  blob_open_scan f7_out 4 true = ROk [f7_h1; f7_h3] /\
-  entry_load f7_out f7_h3 = RFail EBincode /\
-  entry_load (blob_bytes f7_recs) f7_h3 = ROk ([], [70;80;90]).  (* in the original it was readable *)
+  blob_open_scan f7_out 4 true = ROk [f7_h1; f7_h3'] /\
+  blob_open_scan f7_out 4 false = ROk [f7_h1; f7_h3'] /\
+  entry_load f7_out f7_h1 = ROk ([], [10;20;30]) /\
+  entry_load f7_out f7_h3' = ROk ([], [70;80;90]) /\
+  entry_load f7_out f7_h3 = RFail EBincode.     (* the stale header (what the writer emitted before the repair) is not usable *)
 Proof. vm_compute. repeat split; reflexivity. Qed.
 
 Print Assumptions tool_validate_prefix.
 Print Assumptions tool_validate_complete.
 Print Assumptions tool_recover_prefix.
+Print Assumptions stamp_off.
+Print Assumptions stamp_same.
+Print Assumptions stamp_crc.
+Print Assumptions stamp_other_fields.
+Print Assumptions stamp_valid.
+Print Assumptions stamp_hdr_of.
+Print Assumptions out_of_record_readable.
+Print Assumptions tool_recover_loop_offsets.
+Print Assumptions out_of_scan.
+Print Assumptions tool_recover_served.
 Print Assumptions f7_no_skip.
-Print Assumptions f7_recover_keeps_old_offset.
+Print Assumptions f7_recover_stamps_new_offset.
